@@ -81,6 +81,8 @@ class FunctionSpec:
 
     def allowed_write(self, I, ctx, obj, what):
         """frame: may the function write to this heap object?"""
+        if hasattr(obj, "token"):  # sequence of unknown length: fresh iff created during the call
+            return getattr(obj, "region", None) == "fresh" and obj.token > ctx.get("tok_mark", 1 << 60)
         return getattr(obj, "region", None) == "fresh" and getattr(obj, "oid", 0) > ctx.get("oid_mark", 0)
 
     # -- summary (used by callers) ------------------------------------------------------------------
@@ -255,6 +257,9 @@ def verify(spec, tier="quick", summaries=None, only_props=None, part=None):
             I = Interp(P, repo, summaries=summ)
             ctx = spec.setup(I, variant)
             ctx["oid_mark"] = P.next_oid - 1
+            from . import symseq as _ss
+
+            ctx["tok_mark"] = _ss._tok[0]
             f = ctx["f"]
             cs = spec.cases(I, ctx)
             try:
